@@ -879,9 +879,9 @@ def run(ctx):
         check_runs(ctx, res, batch, 'matrix')
     check_runs(ctx, res, [mk_case(rng, *c) for c in listener_cut_cases(rng)], 'listener-cut')
     # (b) free scripts
-    check_runs(ctx, res, [rand_case(rng) for _ in range(ctx.n(2500, 25000))], 'prng')
+    check_runs(ctx, res, [rand_case(rng) for _ in range(ctx.n(2500, 15000))], 'prng')
     # (c) helpers and int()
-    blocks = [(rand_free_block(rng), rng.random() < 0.8, rng.choice(SUBTYPES)) for _ in range(ctx.n(3000, 40000))]
+    blocks = [(rand_free_block(rng), rng.random() < 0.8, rng.choice(SUBTYPES)) for _ in range(ctx.n(3000, 25000))]
     blocks += [([[':status', '200'], ['content-type', 'application/grpc'], ['grpc-status', s]], True, 'proto')
                for s in NONASCII_GS + GS_OK + GS_INVALID]
     # every content-type candidate (prefixes / suffixes / substrings / superstrings of the accepted values)
@@ -903,7 +903,7 @@ def run(ctx):
             if ch.isspace() or unicodedata.category(ch) in ('Nd', 'No', 'Nl'):
                 cpsel.update((c - 1, c, c + 1))
         cpsel = sorted(c for c in cpsel if 0 <= c < 0x110000 and not 0xD800 <= c <= 0xDFFF)
-    ints += [chr(c) for c in cpsel] + [chr(c) + '1' + chr(c) for c in cpsel]
+    ints += [chr(c) for c in cpsel] + [chr(c) + '1' + chr(c) for c in cpsel if c < 0x30000 or c >= 0xE0000]
     if not thorough:
         ints += [chr(c) + '1' for c in cpsel] + ['1' + chr(c) for c in cpsel]
     res.extra['int_codepoints_covered'] = len(cpsel)
